@@ -16,7 +16,7 @@ def gen_cases(ctx):
     cases = []
     for ind in KINDS:
         periods = list(range(1, 9)) + [r.choice([14, 50, 200, 512]) for _ in range(1 if not ctx.thorough else 4)]
-        for p in periods:
+        for pi, p in enumerate(periods):
             for rep in range(3 if not ctx.thorough else 8):
                 n = r.choice([60, 200]) if p <= 8 else min(3 * p + 50, 2000)
                 pr = (p, r.choice([1, 3, 5]) if ind == "SLOW" else 0, 0, 0.0)
@@ -27,7 +27,7 @@ def gen_cases(ctx):
                 else:
                     st = r.choice(["walk", "ties", "periodic", "pgrid", "flatafter", "segments", "uniform", "tiny", "huge", "crash", "crash"])
                     feeds = [("n", 0, x) for x in scalar_stream(r, n, st, p=p, positive=True)]
-                cases.append(Case("%s_p%d_%d" % (ind, p, rep), [new_op(0, ind, pr)] + feeds, dump=(),
+                cases.append(Case("%s_i%d_p%d_%d" % (ind, pi, p, rep), [new_op(0, ind, pr)] + feeds, dump=(),
                                   meta={"ind": ind, "p": p, "n": n, "style": st}))
     return cases
 
